@@ -1798,7 +1798,13 @@ class Exec:
                 r = hook(self, st, coll, x, line)
                 if r is not NotImplemented:
                     return r
-            raise Unsupported('substring test at %d' % line)
+            # general substring test: an unknown truth value that respects
+            # the lengths (sound over-approximation)
+            b = fresh_bool('substr')
+            xs, cs = lift_str(x), lift_str(coll)
+            st.assume(Implies(b, zint(xs.ln) <= zint(cs.ln)))
+            st.assume(Implies(zint(xs.ln) == 0, b))
+            return b
         if isinstance(coll, tuple):
             return Or(*[self.equal(x, c, st, line) if not isinstance(
                 c, ClassRef) else self.identical(x, c, st, line)
